@@ -16,6 +16,7 @@ def run(ctx):
     nh, shards, exlen = ('40', 4, '3') if not ctx.thorough else ('200', 16, '4')
     ctx.children(b, shards, run='TestC02$', env={'VERIF_C02_HIST': nh}, timeout=1800)
     ctx.children(b, 1, run='TestC02NilOrigin', timeout=300, what='TestC02NilOrigin')
+    ctx.children(b, 1, run='TestC02TinyNeighbours', timeout=600, what='TestC02TinyNeighbours', env={'VERIF_C02_TINY': '300' if not ctx.thorough else '6000'})
     ctx.children(b, 16, run='TestC02Exhaustive', env={'VERIF_C02_EXLEN': exlen}, timeout=3000)
     if exlen:
         ctx.extra_cov['exhaustive_small_alphabet_len'] = int(exlen)
